@@ -286,6 +286,26 @@ func verifC10Classify(maxArray int, data []byte) (res string) {
 	return verifSummary(g, end)
 }
 
+func verifC10Nested(depth int) []byte {
+	var b bytes.Buffer
+	b.WriteString("GGUF")
+	binary.Write(&b, binary.LittleEndian, uint32(3))
+	binary.Write(&b, binary.LittleEndian, uint64(0)) // tensors
+	binary.Write(&b, binary.LittleEndian, uint64(1)) // key/values
+	binary.Write(&b, binary.LittleEndian, uint64(1))
+	b.WriteString("a")
+	binary.Write(&b, binary.LittleEndian, uint32(9)) // value type: array
+	level := make([]byte, 12)
+	binary.LittleEndian.PutUint32(level, 9) // element type: array
+	binary.LittleEndian.PutUint64(level[4:], 1)
+	for i := 0; i < depth; i++ {
+		b.Write(level)
+	}
+	binary.Write(&b, binary.LittleEndian, uint32(0)) // innermost: uint8 elements
+	binary.Write(&b, binary.LittleEndian, uint64(0)) // none
+	return b.Bytes()
+}
+
 func TestVerifC10Worker(t *testing.T) {
 	in, err := os.Open(os.Getenv("VERIF_IN"))
 	if err != nil {
@@ -309,14 +329,25 @@ func TestVerifC10Worker(t *testing.T) {
 			continue
 		}
 		toks := strings.Fields(sc.Text())
-		if len(toks) != 4 || toks[0] != "gguf-safe" {
+		if len(toks) != 4 || (toks[0] != "gguf-safe" && toks[0] != "gguf-nest") {
 			t.Fatalf("bad line %d", i)
 		}
 		var maxArray int
 		fmt.Sscan(toks[1], &maxArray)
 		// announce the input before running it, so a death is attributable
 		fmt.Fprintf(out, "")
-		res := verifC10Classify(maxArray, zzverif.Unhex(toks[3]))
+		var data []byte
+		if toks[0] == "gguf-nest" {
+			// directed search only: one key whose value is an array nested <depth> levels deep (each level: element type
+			// "array", count 1), innermost an empty uint8 array.  A decoder that accepts arrays as array elements recurses
+			// once per level.
+			var depth int
+			fmt.Sscan(toks[3], &depth)
+			data = verifC10Nested(depth)
+		} else {
+			data = zzverif.Unhex(toks[3])
+		}
+		res := verifC10Classify(maxArray, data)
 		if _, err := fmt.Fprintln(out, res); err != nil {
 			t.Fatal(err)
 		}
